@@ -180,6 +180,21 @@ CLAIMS = {
             "every path:line:text entry against that line.",
             "serde_json's serializer is trusted for the inside of one item; the harness-provided offset table is re-verified by TLC",
             "DESIGN.md section 3 C16"),
+    "C17": ("model_checking",
+            "TLA+ model of the walker-threads / channel / consumer pipeline (Worker.tla) model-checked by TLC incl. liveness; "
+            "hook traces of real `sg run -j N` executions under seeded schedule perturbation validated as behaviours of the "
+            "model, outcomes judged by TLC",
+            "Worker.tla has one action per hook point (Take, Fail, Send, Finish, WalkDone, Recv, ConsumerDone); TLC checks "
+            "for 2-3 threads x 4 files (one faulty, results of 0/1/2 items) in every interleaving: each file handed out "
+            "exactly once, printed items = union of the files' items without duplicates and in per-file order, skipped = "
+            "faulty files, and termination under weak fairness. The real CLI is run with -j 1..16 on generated trees "
+            "(nested directories, empty / non-UTF-8 / oversized files) with AST_GREP_VERIF_SCHED perturbing the "
+            "interleaving; Trace_Worker replays every hook trace into Worker.tla (IsEvent + action, invariants on every "
+            "state) and requires the printed JSON records to equal, as a bag, the union of per-file runs, the output to "
+            "parse, --inspect summary to report scanned = all files and skipped = faulty files, and exit status 0.",
+            "ignore::WalkParallel is trusted to hand out each file once; schedules are sampled, not enumerated; no "
+            "permission faults (root sandbox); a panic inside a walker thread is C11's concern",
+            "DESIGN.md section 3 C17"),
 }
 
 NOT_YET = "check not built yet in this round (construction order in DESIGN.md section 9); not claimed until it runs"
